@@ -193,7 +193,7 @@ func genCase(t *rapid.T, opt *wgen.Options, nhist int) (c Case, p *winterp.Progr
 	}
 	for _, sh := range [][2]string{{"iterate (", "iterate"}, {"} else (length:", "iterate-else"}, {"io_bind (", "io_bind"}, {"foo.drain?", "two-public-coroutines"},
 		{"inv ", "loop-invariant"}, {"_fast!(", "fast-io"}, {"w: base.u32", "coroutine-with-argument"}, {"pub func foo.set_f", "refined-setter"},
-		{"while.lab", "labelled-loop-deep-break"}, {"}}.lab", "double-curly-block"}, {"pri const K", "named-scalar-const"}, {"<< (", "variable-shift"}, {"io_limit (", "io_limit"}, {"foo.hio!", "two-stream-helper"}} {
+		{"while.lab", "labelled-loop-deep-break"}, {"}}.lab", "double-curly-block"}, {"pri const K", "named-scalar-const"}, {"<< (", "variable-shift"}, {"io_limit (", "io_limit"}, {"foo.hio!", "two-stream-helper"}, {" .. ", "slice-window"}, {"continue\n", "continue"}} {
 		if strings.Contains(c.Src, sh[0]) {
 			ev.Class("shape:" + sh[1])
 		}
